@@ -116,29 +116,45 @@ theorem C10_accepts_fields (q : Bool) (s : Str) (f : NumbFields) (h : parseNumb 
 
 /-! ### integer arithmetic of the exponent (C16 shares this) -/
 
-/-- **C10_exponent_no_overflow**: however many exponent digits a text has, the saturating accumulation introduced by the
-    overflow fix ends `≤ 2147483629 < 2^31`, and every `exponent * 10 + digit` it evaluates is `≤ INT_MAX`
-    (∀ strings — induction over the digit loop) -/
+/-- **C10_exponent_no_overflow**: however many exponent digits a text has, the saturating accumulation (bound
+    `INT_MAX / 20` since fix d4436fb) ends `≤ 1073741820 < 2^31`, and every `exponent * 10 + digit` it evaluates is
+    `≤ INT_MAX` (∀ strings — induction over the digit loop) -/
 theorem C10_exponent_no_overflow (r : Str) :
-    expAccum (r.takeWhile isDigit) ≤ 2147483629 ∧ 2147483629 < 2 ^ 31 ∧
+    expAccum (r.takeWhile isDigit) ≤ 1073741820 ∧ 1073741820 < 2 ^ 31 ∧
     ∀ e c, e < expSatLimit → isDigit c = true → e * 10 + (c - UCHAR_0) ≤ INT_MAX := by
   refine ⟨expAccum_le _ (fun c hc => mem_takeWhile_prop isDigit r c hc), by decide, fun e c he hc => expStep_operand_lt e c he hc⟩
 
-/-- FULL statement that was expected to hold as well — the scale computed from a text of at most a line fits an `int`.
-    It is FALSE for the current tree (see the counterexample below): the saturation bound leaves only 18 units of head
-    room below INT_MAX, and `scale += number of fraction digits` (value.c:2068) as well as `msp = -scale + number of
-    digits` in `to_double` exceed it.  Open finding C10-exp-digits-overflow. -/
-def C10_scale_within_int_full : Prop :=
-  ∀ (s : Str) (f : NumbFields), s.length ≤ 2048 → parseNumb s = some f →
+/-- **C10_scale_within_int**: for every text of at most a line (2048 units) that `cif_value_parse_numb` accepts, the
+    scale fits an `int`, and so do `scale + number of digits` and `-scale + number of digits` — the quantities that
+    `scale += digit_end - (decimal_pos + 1)` (value.c) and `lsp = -scale; msp = lsp + digit count` (`to_double`)
+    compute in `int` arithmetic.  (∀ strings; from `parseNumbZL_bounds`, which holds for every saturation bound.) -/
+theorem C10_scale_within_int (s : Str) (f : NumbFields) (hlen : s.length ≤ 2048) (h : parseNumb s = some f) :
+    -(2147483648 : Int) ≤ f.scale ∧ f.scale ≤ 2147483647 ∧
+    f.scale + (f.digits.length : Int) ≤ 2147483647 ∧ -f.scale + (f.digits.length : Int) ≤ 2147483647 := by
+  unfold parseNumb parseNumbZ at h
+  have hb := parseNumbZL_bounds expSatLimit (cstr s) f h
+  have hc : (cstr s).length ≤ s.length := len_takeWhile_le _ _
+  unfold expSatLimit at hb
+  omega
+
+/-- the same statement for an arbitrary saturation bound `lim` -/
+def C10_scale_within_int_for (lim : Nat) : Prop :=
+  ∀ (s : Str) (f : NumbFields), s.length ≤ 2048 → parseNumbZL lim (cstr s) = some f →
     -(2147483648 : Int) ≤ f.scale ∧ f.scale + (f.digits.length : Int) ≤ 2147483647 ∧ -f.scale + (f.digits.length : Int) ≤ 2147483647
 
-/-- counterexample (decided by the kernel): a valid 33-character number text whose scale is `2^31` -/
-theorem C10_cex_scale_exceeds_int :
-    (parseNumb (a!"1.0000000000000000000e-2147483629")).map (·.scale) = some 2147483648 := by decide +kernel
+theorem C10_scale_within_int_current : C10_scale_within_int_for expSatLimit := by
+  intro s f hlen h
+  have := C10_scale_within_int s f hlen (by unfold parseNumb parseNumbZ; exact h)
+  omega
 
-theorem C10_scale_within_int_refuted : ¬ C10_scale_within_int_full := by
+/-- counterexample for the bound of the tree before fix d4436fb, `(INT_MAX / 10) - 1` (decided by the kernel): a valid
+    33-character number text whose scale is `2^31` (fixed finding C10-exp-digits-overflow) -/
+theorem C10_cex_scale_exceeds_int_pinned :
+    (parseNumbZL expSatLimitPinned (a!"1.0000000000000000000e-2147483629")).map (·.scale) = some 2147483648 := by decide +kernel
+
+theorem C10_scale_within_int_pinned_refuted : ¬ C10_scale_within_int_for expSatLimitPinned := by
   intro h
-  have h1 : parseNumb (a!"1.0000000000000000000e-2147483629") =
+  have h1 : parseNumbZL expSatLimitPinned (cstr (a!"1.0000000000000000000e-2147483629")) =
       some ⟨false, [1,0,0,0,0,0,0,0,0,0,0,0,0,0,0,0,0,0,0,0], none, 2147483648⟩ := by decide +kernel
   have := (h _ _ (by decide) h1).2.1
   simp at this
